@@ -298,6 +298,11 @@ async fn network_connect(options: &MqttOptions) -> Result<Network, ConnectionErr
         }
     }
 
+    #[cfg(rumqtt_verif)]
+    if let Some(socket) = crate::verif::connect_hook() {
+        return Ok(Network::new(socket?, max_incoming_pkt_size));
+    }
+
     // Process Unix files early, as proxy is not supported for them.
     #[cfg(unix)]
     if matches!(options.transport(), Transport::Unix) {
